@@ -59,7 +59,7 @@ def handle (line : String) : String :=
   match cmd with
   | "enc" =>
     showCode id (encode (parseParts (r.getD "parts" "")) (optNat (r.getD "error" "-")) (optInt (r.getD "version" "-"))
-      (optNat (r.getD "mask" "-")) (r.getD "eci" "0" == "1") (optBool (r.getD "micro" "-")) (r.getD "boost" "1" == "1")
+      (optNat (r.getD "gmode" "-")) (optNat (r.getD "mask" "-")) (r.getD "eci" "0" == "1") (optBool (r.getD "micro" "-")) (r.getD "boost" "1" == "1")
       (eciNumberFrom (r.getD "canon" "")))
   | "" => ""
   | _ => s!"id={id} error=unknown-command-{cmd}"
